@@ -20,6 +20,14 @@ fn v(x: u64) -> VarInt {
     VarInt::new(x).unwrap()
 }
 
+/// arbitrary IncrementalValueSync with the given latest value (see IncrementalValueSync::verif_build in ivs.rs);
+/// the nondeterministic values are drawn here, in the harness's own module
+fn any_sync_with_latest<S: ValueToFrameWriter<VarInt>>(latest: u64) -> IncrementalValueSync<VarInt, S> {
+    let nd: [u64; 4] = kani::any();
+    let kind: u8 = kani::any();
+    IncrementalValueSync::verif_build(latest, nd, kind)
+}
+
 /// Arbitrary controller satisfying `ri_inv` (the only code that touches private fields):
 /// closed <= opened <= advertised, local_limit <= advertised <= min(2^60, closed + local_limit);
 /// the MAX_STREAMS synchroniser in any delivery state; the refill token bucket as built by the constructor
@@ -32,11 +40,15 @@ fn any_ri() -> RemoteInitiated {
     kani::assume(limit <= advertised && advertised <= MAX_STREAMS);
     kani::assume(closed <= opened && opened <= advertised);
     kani::assume(advertised as u128 <= closed as u128 + limit as u128);
-    let mut ri = RemoteInitiated::new(v(limit), MIN_RTT);
-    ri.max_streams_sync = IncrementalValueSync::verif_any_with_latest(advertised);
-    ri.opened_streams = v(opened);
-    ri.closed_streams = v(closed);
-    ri
+    // as RemoteInitiated::new builds it (vq_c04_ri_new covers the constructor itself), without the symbolic
+    // division `limit / 10` that only sets the synchroniser's threshold (arbitrary here)
+    RemoteInitiated {
+        max_local_limit: v(limit),
+        max_streams_sync: any_sync_with_latest(advertised),
+        opened_streams: v(opened),
+        closed_streams: v(closed),
+        rtt_refill: TokenBucket::builder().with_max(limit).with_refill_interval(MIN_RTT).with_refill_amount(limit).build(),
+    }
 }
 
 fn abs(ri: &RemoteInitiated) -> Ri {
